@@ -193,6 +193,13 @@ def itCollect (g : G L) (next : Nat × Nat → Nat × Nat) : Nat → Nat × Nat 
 def dEdges (g : G L) : List Edge := g.itCollect g.dItNext (g.sumLen + 1) g.itBegin
 def uEdges (g : G L) : List Edge := g.itCollect (g.uItNext (g.sumLen + 1)) (g.sumLen + 1) g.itBegin
 
+/-- `for (VertexIndex v : graph)`: the `VertexIterator` counter from `begin()` (0) until it equals
+`end()` (`size`) -/
+def vCollect (n : Nat) : Nat → Nat → List Nat
+  | 0, _ => []
+  | f+1, p => if p = n then [] else p :: vCollect n f (p + 1)
+def vertices (g : G L) : List Nat := vCollect g.size (g.size + 1) 0
+
 /-- closed form of the directed enumeration (theorem `dEdges_eq` in Props/C08) -/
 def edgeSeq (g : G L) : List Edge := (List.range g.size).flatMap (fun i => (g.nb i).map (fun j => (i, j)))
 
